@@ -6,7 +6,9 @@ import (
 	"encoding/json"
 	"errors"
 	"fmt"
+	"math"
 	"regexp"
+	"strconv"
 	"strings"
 	"testing"
 
@@ -247,11 +249,11 @@ func checkRefusal(rec *ev.Rec, p *prog.P, oe *ugo.OptimizerError) string {
 		rec.Exclude("refusal-in-module(re-evaluation skipped)")
 		return ""
 	}
-	text := oe.Node.String()
-	if !faithful(oe.Node) {
-		// folded float/uint literals are rendered without their type marker ("-0", "5"): the text
-		// would not denote the same expression, so the refusal cannot be re-evaluated reliably
-		rec.Exclude("refusal-rendering-lossy(re-evaluation skipped)")
+	// render the node from the VALUES held in the AST (the Literal fields of folded or substituted
+	// literals are not faithful: "-0" for a float, "5" for a uint, "" for a const literal)
+	text, ok := renderNode(oe.Node)
+	if !ok {
+		rec.Exclude("refusal-node-kind-not-rendered(re-evaluation skipped)")
 		return ""
 	}
 	if !selfContained(text) {
@@ -274,49 +276,83 @@ func checkRefusal(rec *ev.Rec, p *prog.P, oe *ugo.OptimizerError) string {
 	return ""
 }
 
-// faithful reports whether node.String() denotes exactly the expression held in the AST.
-func faithful(n parser.Node) bool {
+// renderNode renders an expression node back to source from the values in the AST.
+func renderNode(n parser.Node) (string, bool) {
 	switch e := n.(type) {
-	case *parser.IntLit, *parser.BoolLit, *parser.UndefinedLit, *parser.Ident:
-		return true
-	case *parser.StringLit:
-		// const-literal substitution builds StringLits without a quoted Literal
-		return len(e.Literal) >= 2 && (e.Literal[0] == '"' || e.Literal[0] == '`')
-	case *parser.CharLit:
-		return len(e.Literal) >= 3 && e.Literal[0] == '\''
-	case *parser.FloatLit:
-		return strings.ContainsAny(e.Literal, ".eE") && !strings.HasPrefix(e.Literal, "-") && !strings.HasPrefix(e.Literal, "+")
+	case *parser.IntLit:
+		if e.Value == math.MinInt64 {
+			return "(-9223372036854775807 - 1)", true
+		}
+		if e.Value < 0 {
+			return "(" + strconv.FormatInt(e.Value, 10) + ")", true
+		}
+		return strconv.FormatInt(e.Value, 10), true
 	case *parser.UintLit:
-		return strings.HasSuffix(e.Literal, "u")
+		return strconv.FormatUint(e.Value, 10) + "u", true
+	case *parser.FloatLit:
+		f := e.Value
+		if math.IsNaN(f) || math.IsInf(f, 0) {
+			return "", false
+		}
+		if math.Signbit(f) {
+			return "(-" + gen.FloatText(-f) + ")", true
+		}
+		return gen.FloatText(f), true
+	case *parser.StringLit:
+		return gen.ExprSrc(gen.StrLit(e.Value)), true
+	case *parser.CharLit:
+		return gen.ExprSrc(&gen.Lit{Kind: gen.LChar, I: int64(e.Value)}), true
+	case *parser.BoolLit:
+		return strconv.FormatBool(e.Value), true
+	case *parser.UndefinedLit:
+		return "undefined", true
+	case *parser.Ident:
+		return e.Name, true
 	case *parser.ParenExpr:
-		return faithful(e.Expr)
+		x, ok := renderNode(e.Expr)
+		return "(" + x + ")", ok
 	case *parser.UnaryExpr:
-		return faithful(e.Expr)
+		x, ok := renderNode(e.Expr)
+		return "(" + e.Token.String() + "(" + x + "))", ok
 	case *parser.BinaryExpr:
-		return faithful(e.LHS) && faithful(e.RHS)
+		l, ok1 := renderNode(e.LHS)
+		r, ok2 := renderNode(e.RHS)
+		return "((" + l + ") " + e.Token.String() + " (" + r + "))", ok1 && ok2
 	case *parser.CondExpr:
-		return faithful(e.Cond) && faithful(e.True) && faithful(e.False)
+		c, ok1 := renderNode(e.Cond)
+		a, ok2 := renderNode(e.True)
+		b, ok3 := renderNode(e.False)
+		return "((" + c + ") ? (" + a + ") : (" + b + "))", ok1 && ok2 && ok3
 	case *parser.CallExpr:
-		if !faithful(e.Func) {
-			return false
+		f, ok := renderNode(e.Func)
+		if !ok || e.Ellipsis.IsValid() {
+			return "", false
 		}
+		var args []string
 		for _, a := range e.Args {
-			if !faithful(a) {
-				return false
+			x, ok := renderNode(a)
+			if !ok {
+				return "", false
 			}
+			args = append(args, x)
 		}
-		return true
+		return f + "(" + strings.Join(args, ", ") + ")", true
 	case *parser.IndexExpr:
-		return faithful(e.Expr) && faithful(e.Index)
+		x, ok1 := renderNode(e.Expr)
+		i, ok2 := renderNode(e.Index)
+		return "(" + x + ")[" + i + "]", ok1 && ok2
 	case *parser.ArrayLit:
+		var el []string
 		for _, a := range e.Elements {
-			if !faithful(a) {
-				return false
+			x, ok := renderNode(a)
+			if !ok {
+				return "", false
 			}
+			el = append(el, x)
 		}
-		return true
+		return "[" + strings.Join(el, ", ") + "]", true
 	}
-	return false
+	return "", false
 }
 
 type tfail struct {
